@@ -10,7 +10,8 @@ git -C /repo worktree add -q --detach $WT HEAD || exit 3
 for d in internal/sqlite/sqlite0 internal/vkgo/sqlitev2/sqlite0; do
   cp /verif/third_party/sqlite/sqlite3.c /verif/third_party/sqlite/sqlite3.h $WT/$d/ 2>/dev/null
 done
-PKG=$(grep -m1 '^+++ b/' $D/patch.diff | sed 's#^+++ b/##; s#/[^/]*$##')
+PATCHPKG=$(grep -m1 '^+++ b/' $D/patch.diff | sed 's#^+++ b/##; s#/[^/]*$##')
+PKG=${DEMO_PKG:-$PATCHPKG}
 TESTS=$(grep -ho '^func Test[A-Za-z0-9_]*' $D/demo_test.go | sed 's/func //' | paste -sd'|')
 cd $WT
 cp $D/demo_test.go $PKG/zz_seed_demo_test.go
@@ -19,7 +20,7 @@ git apply $D/patch.diff; APPLY=$?
 go build ./... > /tmp/confirm-$NAME-build.log 2>&1; BUILD=$?
 go test ${SEED_TAGS:+-tags $SEED_TAGS} -count=1 -run "^($TESTS)\$" ./$PKG > /tmp/confirm-$NAME-patched.log 2>&1; PATCHED=$?
 rm $PKG/zz_seed_demo_test.go
-go test -count=1 ./$PKG/... > /tmp/confirm-$NAME-suite.log 2>&1; SUITE=$?
+go test -count=1 ./$PATCHPKG/... > /tmp/confirm-$NAME-suite.log 2>&1; SUITE=$?
 cd /
 git -C /repo worktree remove --force $WT
 echo "SEED $NAME pkg=$PKG apply=$APPLY build=$BUILD existing_tests=$SUITE demo_clean=$CLEAN demo_patched=$PATCHED"
